@@ -5,11 +5,11 @@ SNAP="/tmp/verif-snap-$$"; rm -rf "$SNAP"; mkdir -p "$SNAP"
 rsync -a --exclude target --exclude .git --exclude replays /verif/ "$SNAP/"
 trap 'rm -rf "$SNAP"' EXIT
 export MUT_WT=/tmp/aisverif-ref MUT_TARGET=/tmp/aisverif-ref-target
-OUT=/verif/refactors/results.txt
+OUT="${OUT:-/verif/refactors/results.txt}"
 names=("$@"); [ ${#names[@]} -eq 0 ] && { names=($(ls -d /verif/refactors/*/ | xargs -n1 basename)); : > "$OUT"; }
 for name in "${names[@]}"; do
   d="/verif/refactors/$name/patch.diff"; [ -f "$d" ] || continue
   echo "== $name" | tee -a "$OUT"
-  "$SNAP/tools/run_mutant.sh" "$d" C01 C02 C05 C06 C17 C18 C20 2>&1 | cut -c1-260 | tee -a "$OUT"
+  "$SNAP/tools/run_mutant.sh" "$d" ${CHECKS:-C01 C02 C05 C06 C17 C18 C20} 2>&1 | cut -c1-260 | tee -a "$OUT"
 done
 "$SNAP/tools/run_mutant.sh" --clean
